@@ -501,6 +501,20 @@ func (a *Adv) DoubleSpendProbes() int {
 					}) {
 						n++
 					}
+					// the same spent element relabelled as an in-block ("ephemeral") one: unassigned leaf index, with its
+					// maintained proof or none. Nothing in this block created it, so it must be refused all the same.
+					for _, variant := range []string{"unassigned-leaf-index", "unassigned-leaf-index-no-proof"} {
+						el2 := e.Copy()
+						el2.StateElement.LeafIndex = types.UnassignedLeafIndex
+						if variant == "unassigned-leaf-index-no-proof" {
+							el2.StateElement.MerkleProof = nil
+						}
+						if a.emit(CloneBlock(blk), "respend-spent-element/v1-supplement-"+variant, "reject", nil, func(bs *consensus.V1BlockSupplement) {
+							bs.Transactions[idx].SiacoinInputs = append(bs.Transactions[idx].SiacoinInputs, el2)
+						}) {
+							n++
+						}
+					}
 				}
 			}
 		}
@@ -812,6 +826,62 @@ func (a *Adv) InflationProbes() int {
 			emit(blk, "wrap/v1-output+fee-2^127")
 		}
 		break
+	}
+	// From EphemeralOutputHeight on, a parent created earlier in the block is compared with what the block created
+	// (siacoins) or may not be spent at all (siafunds). A later transaction of the block that spends such an output
+	// while claiming twice its value is appended to the honest block; below that height the claimed value is not
+	// compared (documented legacy window, outside the claim), so the probe is only recorded from that height on.
+	if a.v2Allowed() && a.Child >= a.G.C.Net.HardforkV2.EphemeralOutputHeight {
+		median := MedianTimestamp(a.CS)
+		done := map[string]bool{}
+		for ti := range a.Honest.V2Transactions() {
+			orig := a.Honest.V2.Transactions[ti]
+			txid := orig.ID()
+			for oi, o := range orig.SiafundOutputs {
+				lock, known := a.G.W.Locks[o.Address]
+				if done["sf"] || !known || o.Value == 0 || o.Value > 1<<40 || !lock.Spendable(true, a.Child, median) {
+					continue
+				}
+				sp, ok := Satisfy(lock.Policy, types.Hash256{}, a.CS.Index.Height, median)
+				if !ok {
+					continue
+				}
+				parent := orig.EphemeralSiafundOutput(oi)
+				parent.ID = orig.SiafundOutputID(txid, oi)
+				parent.SiafundOutput.Value = 2 * o.Value
+				txn := types.V2Transaction{
+					SiafundInputs:  []types.V2SiafundInput{{Parent: parent, ClaimAddress: types.Address{0xD1}, SatisfiedPolicy: sp}},
+					SiafundOutputs: []types.SiafundOutput{{Value: 2 * o.Value, Address: types.Address{0xD2}}},
+				}
+				SignV2(a.CS, &txn, SignOpts{})
+				blk := CloneBlock(a.Honest)
+				blk.V2.Transactions = append(blk.V2.Transactions, txn)
+				emit(blk, "ephemeral/v2-siafund-parent-value-doubled")
+				done["sf"] = true
+			}
+			for oi, o := range orig.SiacoinOutputs {
+				lock, known := a.G.W.Locks[o.Address]
+				if done["sc"] || !known || o.Value.IsZero() || o.Value.Hi != 0 || !lock.Spendable(true, a.Child, median) {
+					continue
+				}
+				sp, ok := Satisfy(lock.Policy, types.Hash256{}, a.CS.Index.Height, median)
+				if !ok {
+					continue
+				}
+				parent := orig.EphemeralSiacoinOutput(oi)
+				parent.ID = orig.SiacoinOutputID(txid, oi)
+				parent.SiacoinOutput.Value = o.Value.Add(o.Value)
+				txn := types.V2Transaction{
+					SiacoinInputs:  []types.V2SiacoinInput{{Parent: parent, SatisfiedPolicy: sp}},
+					SiacoinOutputs: []types.SiacoinOutput{{Value: parent.SiacoinOutput.Value, Address: types.Address{0xD3}}},
+				}
+				SignV2(a.CS, &txn, SignOpts{})
+				blk := CloneBlock(a.Honest)
+				blk.V2.Transactions = append(blk.V2.Transactions, txn)
+				emit(blk, "ephemeral/v2-siacoin-parent-value-doubled")
+				done["sc"] = true
+			}
+		}
 	}
 	for ti := range a.Honest.V2Transactions() {
 		orig := a.Honest.V2.Transactions[ti]
